@@ -162,7 +162,13 @@ def tables(ctx):
     cherrypy = _cherrypy()
     from cherrypy import _cpreqbody, _cprequest
     from cherrypy.lib import httputil
-    uq = _cpreqbody.unquote_plus
+    def uq(x):
+        # whatever the code under test does is data: an exception or a non-bytes result becomes an entry no proof accepts
+        try:
+            r = _cpreqbody.unquote_plus(x)
+            return r if isinstance(r, bytes) else [999]
+        except Exception:
+            return [999]
     hexd = b'0123456789abcdefABCDEF'
 
     def lst(xs):
@@ -283,7 +289,7 @@ def parse_params(s):
 POISON = '\x00leaked-from-an-earlier-request'
 FORM = 'application/x-www-form-urlencoded'
 BODY_METHODS = ('POST', 'PUT', 'PATCH')          # Request.methods_with_bodies (theorem tables_defaults)
-HANG_SECONDS = 60
+HANG_SECONDS = 20
 _apps = {}
 _sig_apps = []
 _seen = {'calls': 0, 'kwargs': None, 'attempts': None}
@@ -433,6 +439,36 @@ def _on_alarm(signum, frame):
     raise _Hang()
 
 
+_hangs = [0]
+MAX_HANGS = 3
+
+
+class deadline(object):
+    """`with deadline():` - a call into the code under test that does not return within HANG_SECONDS raises _Hang
+    (main thread only; elsewhere no guard).  A hang is an observation, reported with its input."""
+    def __enter__(self):
+        self.timed = threading.current_thread() is threading.main_thread()
+        if self.timed:
+            self.old = signal.signal(signal.SIGALRM, _on_alarm)
+            signal.setitimer(signal.ITIMER_REAL, HANG_SECONDS)
+        return self
+
+    def __exit__(self, et, ev, tb):
+        if self.timed:
+            signal.setitimer(signal.ITIMER_REAL, 0)
+            signal.signal(signal.SIGALRM, self.old)
+        if et is _Hang:
+            _hangs[0] += 1
+        return False
+
+
+def too_many_hangs(ctx):
+    if _hangs[0] >= MAX_HANGS:
+        ctx.note('stopped this stream after %d hangs of the code under test' % _hangs[0])
+        return True
+    return False
+
+
 def run_real(case):
     """One in-process WSGI request.  Returns {'status': int | 'raised X' | 'hang', 'kw': dict|None, 'calls': n,
     'attempts': list|None, ...}: whatever the code under test does is an observation."""
@@ -462,13 +498,9 @@ def run_real(case):
         got.append(status)
         return lambda data: None
 
-    timed = threading.current_thread() is threading.main_thread()
-    if timed:
-        old = signal.signal(signal.SIGALRM, _on_alarm)
-        signal.setitimer(signal.ITIMER_REAL, HANG_SECONDS)
     status = None
     try:
-        try:
+        with deadline():
             it = app(env, start_response)
             try:
                 for _ in it:
@@ -476,14 +508,10 @@ def run_real(case):
             finally:
                 if hasattr(it, 'close'):
                     it.close()
-        except _Hang:
-            status = 'hang'
-        except Exception as e:               # noqa: whatever escapes the WSGI application is an observation
-            status = 'raised ' + type(e).__name__
-    finally:
-        if timed:
-            signal.setitimer(signal.ITIMER_REAL, 0)
-            signal.signal(signal.SIGALRM, old)
+    except _Hang:
+        status = 'hang (no response within %d s)' % HANG_SECONDS
+    except Exception as e:                   # noqa: whatever escapes the WSGI application is an observation
+        status = 'raised ' + type(e).__name__
     if _seen.get('probe_error'):
         raise common.HarnessError('probe handler failed: ' + _seen['probe_error'])
     if status is None:
@@ -1486,6 +1514,8 @@ def check_histories(ctx, hists, compare=True, echo=False, minimise=True):
     pos = 0
     earlier = []
     for hist in hists:
+        if too_many_hangs(ctx):
+            break
         hid = history_id(hist)
         res = run_history(hist)
         ctx.count('history_len:%d' % len(hist['steps']))
@@ -1592,6 +1622,8 @@ def check_requests(ctx, cases, compare=True):
     lines = ctx.model([model_line(c) for c in cases]) if compare else None
     att_seen = {}
     for idx, case in enumerate(cases):
+        if too_many_hangs(ctx):
+            break
         obs = run_real(case)
         ctx.case(slim(case), nontrivial=nontrivial(case), key=case_key(case))
         ctx.count('scenario:' + case.get('scenario', '?'))
@@ -1683,9 +1715,12 @@ class _FakeEntity(object):
 def unit_parse_qs(text, enc='utf-8'):
     from cherrypy.lib import httputil
     try:
-        return httputil.parse_query_string(text, encoding=enc)
+        with deadline():
+            return httputil.parse_query_string(text, encoding=enc)
     except UnicodeDecodeError:
         return 'unicode'
+    except _Hang:
+        return 'raised nothing: hang'
     except Exception as e:               # any other exception would be a 500 in a request
         return 'raised ' + type(e).__name__
 
@@ -1695,9 +1730,12 @@ def unit_urlencoded(data, attempts=('utf-8',)):
     from cherrypy import _cpreqbody
     ent = _FakeEntity(data, attempts)
     try:
-        _cpreqbody.process_urlencoded(ent)
+        with deadline():
+            _cpreqbody.process_urlencoded(ent)
     except cherrypy.HTTPError as e:
         return e.status
+    except _Hang:
+        return 'raised nothing: hang'
     except Exception as e:
         return 'raised ' + type(e).__name__
     return ent.params
@@ -1720,6 +1758,8 @@ def check_units(ctx, strings, enc='utf-8', attempts=('utf-8',), compare=True):
                           ['purl %s %s' % (matt, hx(s.encode('utf-8'))) for s in strings])
     n = len(strings)
     for i, s in enumerate(strings):
+        if too_many_hangs(ctx):
+            break
         raw = s.encode('utf-8')
         ctx.case({'kind': 'unit', 's': s}, nontrivial=('%' in s or '+' in s), key='unit|' + s + '|' + me + '|' + matt)
         rq = unit_parse_qs(s, enc)
@@ -1767,6 +1807,8 @@ def check_pct_items(ctx):
     for i, it in enumerate(items):
         try:
             real = unquote_plus(b'%' + it)
+            if not isinstance(real, bytes):
+                raise TypeError('returned ' + type(real).__name__)
         except Exception as e:
             ctx.oracle_fail({'kind': 'uqb', 'b': (b'%' + it).hex()},
                             'unquote_plus(%r) raised %s' % (b'%' + it, type(e).__name__), None)
